@@ -395,6 +395,63 @@ fn explore_annealer(st: &mut Stats, n: usize, edges: &[(usize, usize)], iteratio
     }
 }
 
+/// E3 on the annealer from NON-initial states: started from every tree random_decomp can produce (new_with_decomp),
+/// one iteration, every draw enumerated: any single accepted move that lowers the score but raises the width is seen
+fn explore_annealer_from_all(st: &mut Stats, n: usize, edges: &[(usize, usize)], iterations: usize, tree_stride: usize) {
+    let g = make_graph(n, edges);
+    st.inc("cases");
+    let mut inits: Vec<(Vec<u32>, DecompTree)> = vec![];
+    let gg = g.clone();
+    explore(64, usize::MAX, 500_000, || DecompTree::random_decomp(&gg, &mut ScriptedRng), |e| {
+        if let RunEnd::Done(t) = e.end {
+            inits.push((e.script, t));
+        }
+    });
+    // distinct trees only
+    let mut seen = BTreeSet::new();
+    inits.retain(|(_, t)| seen.insert(format!("{:?}", t.nodes)));
+    st.add("initial_trees", inits.len() as u64);
+    let es = edges.to_vec();
+    for (init_script, t0) in inits.into_iter().step_by(tree_stride) {
+        let Ok((w0, _, _)) = analyse(&t0, n, &es) else { continue };
+        for adaptive in [true, false] {
+            let mut results = vec![];
+            let gg = g.clone();
+            let tt = t0.clone();
+            explore(
+                24,
+                usize::MAX,
+                100_000,
+                || {
+                    let mut a = RankwidthAnnealer::new_with_decomp(gg.clone(), tt.clone(), ScriptedRng);
+                    a.set_iterations(iterations).set_adaptive_cooling(adaptive);
+                    a.run()
+                },
+                |e| results.push((e.script, e.end)),
+            );
+            for (script, end) in results {
+                st.inc("evaluations");
+                st.inc("transitions");
+                let w = || json!({"kind": "annealer-from", "n": n, "edges": es, "init_script": init_script, "iterations": iterations, "adaptive": adaptive, "script": script});
+                match end {
+                    RunEnd::DrawLimit => st.inc("pruned_retry_rounds"),
+                    RunEnd::Panic(p) => st.violation(Violation { sig: format!("annealer-from|panic|{}", site_of(&p)), detail: p, witness: w() }),
+                    RunEnd::Done(out) => match analyse(&out, n, &es) {
+                        Err(e) => st.violation(Violation { sig: "annealer-from|invalid-result".into(), detail: e, witness: w() }),
+                        Ok((width, _, _)) => {
+                            if width > w0 {
+                                st.violation(Violation { sig: "annealer-from|wider-than-start".into(), detail: format!("start tree {:?} has width {}, the annealer returned {:?} with width {}", t0.nodes, w0, out.nodes, width), witness: w() });
+                            } else {
+                                st.inc("nontrivial");
+                            }
+                        }
+                    },
+                }
+            }
+        }
+    }
+}
+
 pub fn run(rep: &mut Report) {
     rep.rule = "state = decomposition tree exactly as stored (node array with neighbour order, leaf / interior index lists, cached ranks); transition = one move of the annealer's repertoire under one complete sequence of RNG answers (every announced draw enumerated), or a width / score query that fills the cache; invariants in every state: cubic tree whose leaves are exactly the vertices, is_valid_for_graph, every cached rank = brute-force cut rank, reported width/score = recomputed = brute force; non-trivial = move executed and all invariants held".into();
     rep.assume("RNG draws are owned through the announce hook and a scripted RngCore, calibrated against rand 0.9 at start-up; a subtree move whose first random pair is rejected is cut after one round (the retry offers exactly the same choices)");
@@ -472,6 +529,24 @@ pub fn run(rep: &mut Report) {
         })
         .collect();
     let stats = results.into_iter().fold(Stats::default(), Stats::merge);
+    // annealer from non-initial states (thorough only: the choice trees are large)
+    if !quick {
+        let t0 = Instant::now();
+        let n = 5usize;
+        let np = all_pairs(n).len();
+        let masks: Vec<u32> = (0..(1u32 << np)).filter(|&m| canon_mask(n, m) == m).step_by(2).collect();
+        let results: Vec<Stats> = masks
+            .par_iter()
+            .map(|&m| {
+                let (es, _) = graph_from_mask(n, m);
+                let mut st = Stats::default();
+                explore_annealer_from_all(&mut st, n, &es, 1, 11);
+                st
+            })
+            .collect();
+        let stats = results.into_iter().fold(Stats::default(), Stats::merge);
+        rep.absorb("annealer from every tree", &format!("{} graph classes on 5 vertices: the annealer started (new_with_decomp) from every 11th tree random_decomp can produce, one iteration, every draw enumerated, adaptive cooling on/off: result valid and no wider than the start", masks.len()), false, Some("stride over graph classes (2) and trees (11)".into()), t0, stats);
+    }
     rep.absorb("annealer", &format!("RankwidthAnnealer::new(..).run() on every graph class with 2..4 vertices (edgeless included) x adaptive cooling on/off x initial temperature {{5, 0.5}}, {} iterations (one less on 4 vertices), every draw enumerated", iters), true, None, t0, stats);
 }
 
@@ -480,6 +555,11 @@ pub fn replay(w: &Value) -> Option<Violation> {
     let edges: Vec<(usize, usize)> = w["edges"].as_array()?.iter().map(|e| (e[0].as_u64().unwrap() as usize, e[1].as_u64().unwrap() as usize)).collect();
     let g = make_graph(n, &edges);
     let sc = |v: &Value| -> Vec<u32> { v.as_array().map(|a| a.iter().map(|x| x.as_u64().unwrap() as u32).collect()).unwrap_or_default() };
+    if w["kind"] == "annealer-from" {
+        let mut st = Stats::default();
+        explore_annealer_from_all(&mut st, n, &edges, w["iterations"].as_u64()? as usize, 1);
+        return st.viols.into_values().next().map(|(_, v)| v);
+    }
     if w["kind"] == "annealer" {
         let mut st = Stats::default();
         // re-run the whole (small) choice tree of this configuration
